@@ -286,6 +286,23 @@ CLAIMED["C19"] = {
     "design_ref": "DESIGN.md section 8, C19",
 }
 
+CLAIMED["C01"] = {
+    "text": "PROVED TIER (RDH level): Theorem C01_rdh_tier -- for EVERY link description of the producer-shaped grammar Spec/Grammar.v (any number of "
+            "heartbeat frames and pages, any orbits / bunch crossings / trigger types / detector-field status bits / packet counters / payload sizes "
+            "within the documented ranges; consecutive heartbeat frames in different orbits) and any placement of its packets in the input, `check "
+            "sanity` and `check all` without a target draw no message; by induction over heartbeat frames and pages with a latch invariant for the "
+            "sanity validator and the invariant RInv (expected page counter, learnt increment, last RDH) for the running validator. The ITS-payload "
+            "and stave tiers of the statement are NOT composed into one proof: they are decided by the correspondence (all five modes of the rebuilt "
+            "binary, the real LinkValidator and the whole-run model must be silent on every generated stream) and rest on the local acceptance "
+            "theorems of C09 (classification), C11 (word sanity iff), C12 (framing) and C13 (lane / frame rules iff). The generator is tied to the "
+            "Coq grammar on every run: every generated link's RDH bytes must equal render_link of its description with wf_link_rdh = true.",
+    "note": "Partial proof, stated as such: category `proof` applies to the RDH tier; for the payload tiers this check is a differential / "
+            "exploration check over the grammar generator. Trusted: Coq kernel; gen translator; extraction + driver; harness; binary; the Python "
+            "generator's payload level as the reading of the protocol documentation.",
+    "technique": "Coq proof (grammar -> validator invariants by induction) for the RDH tier + generator/grammar identity check + five-mode silence of binary, validator and model on generated conforming streams",
+    "design_ref": "DESIGN.md section 8, C01",
+}
+
 ALL = ["C%02d" % i for i in range(1, 21)]
 PENDING_REASON = "not claimed yet: the model/proof for this property is still under construction in this development (see DESIGN.md section 12 build order); no check is registered until its theorem file compiles without admits and its correspondence stream runs"
 
